@@ -14,7 +14,8 @@ From Coq Require Import List Arith Bool ZArith PeanoNat.
 Import ListNotations.
 From BD.Sched Require Import Model.
 
-Inductive event := EStart (i : nat) (t : Z) | EEnd (i : nat) (ok : bool) (t : Z).
+(* ECreateFail: an attempt of step i ended at t because its command could not be created (no Run was entered) *)
+Inductive event := EStart (i : nat) (t : Z) | EEnd (i : nat) (ok : bool) (t : Z) | ECreateFail (i : nat) (t : Z).
 
 Definition code (x : nstatus) : nat :=
   match x with NNone => 0 | NRunning => 1 | NError => 2 | NCancel => 3 | NSuccess => 4 | NSkipped => 5 end.
@@ -98,6 +99,17 @@ Definition feed (r : rstate) (e : event) : option rstate :=
       | Some r1 => match app r1 (LLaunch i) with
         | Some r2 => match app r2 (WTest i) with
           | Some r3 => app r3 (WExecStart i)
+          | None => None end
+        | None => None end
+      | None => None end
+  | ECreateFail i t =>
+      let r0 := norm (2 * n + 2) t r in
+      match app r0 (LCommit i) with
+      | Some r1 => match app r1 (LLaunch i) with
+        | Some r2 => match app r2 (WTest i) with
+          | Some r3 => match app r3 (WCreateFail i) with
+            | Some r4 => Some {| ms := ms r4; lbl := lbl r4; endt := fun j => if j =? i then t else endt r4 j |}
+            | None => None end
           | None => None end
         | None => None end
       | None => None end
